@@ -66,7 +66,7 @@ fn parse_args(a: &[String]) -> Args {
     let mut opts = BTreeMap::new();
     let mut flags = Vec::new();
     let mut i = 0;
-    const FLAGS: &[&str] = &["--machine", "--per-run-log", "--keep"];
+    const FLAGS: &[&str] = &["--machine", "--keep"];
     while i < a.len() {
         if a[i].starts_with("--") {
             if FLAGS.contains(&a[i].as_str()) {
